@@ -327,6 +327,9 @@ def _register_optional():
     if importlib.util.find_spec('c10_gen') is not None:
         import c10_gen
         c10_gen.register()
+    if importlib.util.find_spec('c15_gen') is not None:
+        import c15_gen
+        c15_gen.register()
 
 
 try:
